@@ -179,6 +179,18 @@ def _rel(a, b):
 def search(ctx):
     rng = ctx.rng
     lam = 0.66 / 1.33
+    # deterministic probe (known finding): an image whose coordinates do not start at 0 (a crop) comes back from
+    # ifft(fft(x)) with coordinates starting at 0 -- the transform keeps no record of the origin
+    try:
+        imo = rand_image(rng, 5, 6, False)
+        imo = imo.assign_coords(x=imo.x + 3.0, y=imo.y - 2.0)
+        ctx.tried("ifft-fft-shifted-origin", (5, 6))
+        backo = ifft(fft(imo))
+        if _rel(backo.values, imo.values) <= 1e-11 and not (np.allclose(backo.x, imo.x, rtol=1e-9, atol=1e-12) and np.allclose(backo.y, imo.y, rtol=1e-9, atol=1e-12)):
+            ctx.violation("C17:ifft-fft-coords:shifted-origin", "ifft(fft(x)) of an image whose x axis starts at %.3g returns an x axis starting at %.3g" % (float(imo.x[0]), float(backo.x[0])),
+                          dict(kind="ifft-fft-origin", x0=float(imo.x[0]), y0=float(imo.y[0]), got=[float(backo.x[0]), float(backo.y[0])]))
+    except Exception as ex:
+        ctx.notes.append("shifted-origin probe raised %r" % (ex,))
     # ---- ifft(fft(x)) == x with coordinates, exhaustively over small shapes
     top = 7 if ctx.tier == "quick" else 9
     shapes = [(a, b) for a in range(2, top + 1) for b in range(2, top + 1)]
